@@ -138,6 +138,12 @@ func (e *Engine) collectFunctions() {
 func (e *Engine) indexContracts() {
 	for _, b := range e.cs.Blocks {
 		switch b.Kind {
+		case "config":
+			for _, cl := range b.All("bvfile") {
+				for _, w := range cl.Words {
+					e.bvFiles[w] = true
+				}
+			}
 		case "lockorder":
 			for _, w := range strings.Fields(b.Name) {
 				if w != "<" {
